@@ -75,6 +75,12 @@ def walk_writer(b, bi, si, cmplocal, val):
                     B[dst] = B[s]
                 if s in C:
                     C[dst] = C[s]
+            elif rv['k'] == 'use' and rv['op']['k'] in ('copy', 'move') and len(rv['op']['pl']['p']) == 2 and \
+                    rv['op']['pl']['p'][0]['k'] == 'downcast' and rv['op']['pl']['p'][0].get('n') == 'Some' and \
+                    str(C.get(rv['op']['pl']['l'], '')).startswith('Some:'):
+                C[dst] = C[rv['op']['pl']['l']][5:]            # payload of an Option whose variant is known on this path
+            elif rv['k'] == 'discr' and not rv['pl']['p'] and str(C.get(rv['pl']['l'], '')).startswith(('Some:', 'None')):
+                B[dst] = 1 if C[rv['pl']['l']].startswith('Some:') else 0
             elif rv['k'] == 'use' and rv['op']['k'] == 'const' and 'int' in rv['op'] and b.lty(dst).get('k') == 'bool':
                 B[dst] = bool(rv['op']['int'])
             elif rv['k'] == 'unop' and rv['op'] == 'Not' and rv['a']['k'] in ('copy', 'move') and rv['a']['pl']['l'] in B:
@@ -101,7 +107,18 @@ def walk_writer(b, bi, si, cmplocal, val):
             B.pop(dst, None)
             C.pop(dst, None)
             a0 = t['args'][0] if t['args'] else None
-            if q.endswith(('::data', '::deref', '::chunk', '::as_ref', '::into_inner')) and a0 and a0['k'] in ('copy', 'move'):
+            if q.endswith(('bool::then_some', 'bool::then')) and a0 and a0['k'] in ('copy', 'move') and a0['pl']['l'] in B and len(t['args']) > 1:
+                # `flag.then_some(x)`: Some(x) exactly when the flag is set
+                if B[a0['pl']['l']]:
+                    a1 = t['args'][1]
+                    k = C.get(a1['pl']['l']) if a1['k'] in ('copy', 'move') else None
+                    if k is None and a1['k'] in ('copy', 'move'):
+                        kk = klass_of_adt(pointee_adt(b, a1['pl']['l']))
+                        k = kk + 'obj' if kk else '?'
+                    C[dst] = 'Some:' + str(k)
+                else:
+                    C[dst] = 'None'
+            elif q.endswith(('::data', '::deref', '::chunk', '::as_ref', '::into_inner')) and a0 and a0['k'] in ('copy', 'move'):
                 k = C.get(a0['pl']['l'])
                 if k is None:
                     kk = klass_of_adt(pointee_adt(b, a0['pl']['l']))
